@@ -180,3 +180,5 @@ def check(ctx):
     r_value_printer(ctx)
     r_value_parser(ctx)
     c11.r_print(ctx)
+    c16.r_name_tables(ctx, 'R15.6')
+    c16.r_number_tokens(ctx, 'R15.7')
